@@ -131,6 +131,7 @@ package vnet
 //@   requires n.inv() && n.natType.MappingLifeTime >= 0
 //@   modifies clock, tLook, n.outboundMap[*], n.inboundMap[*], n.outboundMap[oKey].expires
 //@   ghost after Now#1: tLook = clock
+//@   ensures [time] clock >= old(clock)
 //@   ensures [inv] n.inv() && n.udpPortCounter == old(n.udpPortCounter)
 //@   ensures [exact] (m != nil) == (old(oKey in n.outboundMap) && !(tLook > old(n.outboundMap[oKey].expires)))
 //@   ensures [hit] m != nil ==> m == old(n.outboundMap[oKey]) && (oKey in n.outboundMap) && n.outboundMap[oKey] == m &&
@@ -145,11 +146,12 @@ package vnet
 //@   locked n.mutex
 //@   requires n.inv() && len(n.mappedIPs) > 0
 //@   modifies clock, n.udpPortCounter, n.outboundMap[*], n.inboundMap[*]
+//@   ensures [time] clock >= old(clock)
 //@   ensures [inv] n.inv()
 //@   ensures [free] ok ==> 49152 <= port && port <= 65535 && !(n.ikey(sprintf("%s:%d", ipStr[base(n.mappedIPs[0])], port)) in n.inboundMap)
 //@   ensures [keep] (forall k string :: {k in n.outboundMap} (k in n.outboundMap) ==> old(k in n.outboundMap) && n.outboundMap[k] == old(n.outboundMap[k])) &&
 //@            (forall k string :: {k in n.inboundMap} (k in n.inboundMap) ==> old(k in n.inboundMap) && n.inboundMap[k] == old(n.inboundMap[k]))
-//@   loop 1 invariant [inv] n.inv() && 0 <= i && i <= 16384
+//@   loop 1 invariant [inv] n.inv() && 0 <= i && i <= 16384 && clock >= old(clock)
 //@   loop 1 invariant [keep] (forall k string :: {k in n.outboundMap} (k in n.outboundMap) ==> old(k in n.outboundMap) && n.outboundMap[k] == old(n.outboundMap[k])) &&
 //@            (forall k string :: {k in n.inboundMap} (k in n.inboundMap) ==> old(k in n.inboundMap) && n.inboundMap[k] == old(n.inboundMap[k]))
 
